@@ -468,6 +468,59 @@ SAMPLE_WORDS = {"cp1252": "Größe café", "cp1251": "Привет мир", "shi
                 "cp1250": "Łódź žluťoučký", "cp1253": "Ελληνικά κείμενο", "cp1257": "Ąžuolas šešėlis", "utf-8": "Größe 日本語 😃 Привет", "utf-16-le": "Größe 日本語 😃", "utf-16-be": "Größe 😃 한국어"}
 
 
+# a second set of sample words: characters that are LONGER in the legacy encoding than in UTF-8 (gb18030 spends four bytes on
+# a Latin-1 letter, a stateful encoding six bytes of escape sequences on every short run)
+ALT_WORDS = {"gb18030": "Größe äöüß éèêë ñõ", "iso2022_jp": "あaいbうcえdおeかfきgくh", "euc_jp": "あaいbうc", "shift_jis": "ｱｲｳ あa", "gbk": "中a文b文c本d",
+             "cp1252": "€‚ƒ„…†‡ Ÿ", "utf-16-le": "aあb😃c", "utf-16-be": "😃😃😃 a", "utf-8": "\u00a0\u2028 x \ufeff y"}
+
+
+def run_reject_batch_scenario(idx, sc):
+    """sc: {n, bad: [positions], threads, kinds: [...]}: files of several encodings in ONE invocation, some of them malformed:
+    a malformed file is rejected and left alone, and every other file is written as BOM + encode(format(decode(input))) -
+    whatever was read before it on the same worker"""
+    root = tempfile.mkdtemp(prefix=f"r{idx}_", dir=CLI_ROOT)
+    problems = []
+    try:
+        rnd = random.Random(sc["seed"])
+        d = os.path.join(root, "src")
+        os.makedirs(d)
+        expect, bad = {}, set()
+        for k in range(sc["n"]):
+            nm = f"f{k:03d}.pas"
+            text = f"// file {k} Größe 日本語\nS{k} := 'x{k}';   T{k}:=S{k} ;\n" * rnd.choice([1, 1, 3, 40])
+            codec, bom = rnd.choice([("utf-8", b""), ("utf-8", b"\xef\xbb\xbf"), ("utf-16-le", b"\xff\xfe"), ("utf-16-be", b"\xfe\xff")])
+            rc0, formatted = oracle(text.encode("utf-8"))
+            if rc0 != 0:
+                return [], True
+            if k in sc["bad"]:
+                kind = rnd.choice(["utf16le_dangling", "utf8_invalid", "utf16be_surrogate", "utf16le_long"])
+                body = {"utf16le_dangling": b"\xff\xfe" + "AB".encode("utf-16-le") + b"\x3b",
+                        "utf8_invalid": b"x := 1;\x80\xc3(" + text.encode()[:40],
+                        "utf16be_surrogate": b"\xfe\xff" + "a := ".encode("utf-16-be") + b"\xd8\x00" + ";".encode("utf-16-be"),
+                        "utf16le_long": b"\xff\xfe" + (text * 3).encode("utf-16-le") + b"\x00"}[kind]
+                bad.add(nm)
+                expect[nm] = body
+            else:
+                body = bom + text.encode(codec)
+                expect[nm] = bom + formatted.decode("utf-8").encode(codec)
+            with open(os.path.join(d, nm), "wb") as fh:
+                fh.write(body)
+        rc, out, err = run_bin([d], root, env={"RAYON_NUM_THREADS": str(sc["threads"])})
+        what = f"n={sc['n']} malformed={sorted(bad)} threads={sc['threads']}"
+        if (rc != 0) != bool(bad):
+            problems.append({"clause": "malformed_rejected", "detail": f"exit status {rc} ({what})"})
+        for nm, exp in expect.items():
+            now = open(os.path.join(d, nm), "rb").read()
+            if now != exp:
+                if nm in bad:
+                    problems.append({"clause": "malformed_untouched", "detail": f"{nm} is malformed and was rewritten ({what})"})
+                else:
+                    problems.append({"clause": "round_trip", "detail": f"{nm}: bytes written differ from BOM + encode(format(decode(input))) - {len(now)} bytes starting {list(now[:12])}, expected {len(exp)} bytes starting {list(exp[:12])} ({what})"})
+        return problems[:6], False
+    finally:
+        shutil.rmtree(root, ignore_errors=True)
+
+
 def run_legacy_scenario(idx, sc):
     """sc: {label, codec, bom, text, conflicting_option}: bytes written must equal BOM + encode(format(decode(input)))"""
     root = tempfile.mkdtemp(prefix=f"l{idx}_", dir=CLI_ROOT)
